@@ -286,6 +286,68 @@ pub fn ladder(seed: u64, idx: u64) -> Scenario {
     }
 }
 
+/// Systematic position sweep: a small program covering every construct, cut off behind each of
+/// its tokens (what a user has on the screen while writing it), with and without the closing brace
+/// an editor adds by itself; all 13 requests at every column of the last two lines, at (0,0) and
+/// outside the text.
+pub const SWEEP_PROGRAM: &str = "type vec = array [3] of int;\n// sum of a vector\nproc sum(ref v: vec, count: int, ref out: int) {\n  var i: int;\n  out := 0;\n  while (i < count) {\n    out := out + v[i];\n    i := i + 1;\n  }\n}\nproc main() {\n  var arr: vec;\n  var total: int;\n  if (total # 0) printi(total); else sum(arr, 3, total);\n  printc('\\n');\n  readi(arr[0x1]);\n}\n";
+
+pub fn sweep_docs() -> Vec<String> {
+    let toks = gen::tokens_of(SWEEP_PROGRAM);
+    let mut docs = vec![SWEEP_PROGRAM.to_string()];
+    for r in &toks {
+        let cut = &SWEEP_PROGRAM[..r.end];
+        docs.push(cut.to_string());
+        docs.push(format!("{cut}\n}}\n"));
+        // the token itself half typed
+        if r.len() >= 3 {
+            docs.push(SWEEP_PROGRAM[..r.start + r.len() / 2].to_string());
+        }
+    }
+    docs
+}
+
+pub fn position_sweep(seed: u64, idx: u64) -> Option<Scenario> {
+    let docs = sweep_docs();
+    let text = docs.get(idx as usize)?.clone();
+    let mut s = Session::new();
+    s.handshake(idx % 2 == 0);
+    let uri = fresh_uri(0);
+    s.open(&uri, &text);
+    let lines: Vec<&str> = text.split('\n').collect();
+    let n = lines.len();
+    let mut positions: Vec<(u32, u32)> = vec![(0, 0), (n as u32 + 1, 0), (n as u32, 7)];
+    for l in n.saturating_sub(3)..n {
+        for c in 0..=lines[l].len() + 1 {
+            positions.push((l as u32, c as u32));
+        }
+    }
+    for (l, c) in positions {
+        for m in METHODS {
+            if matches!(m, "textDocument/foldingRange" | "textDocument/semanticTokens/full") && c > 0 {
+                continue; // no position parameter
+            }
+            s.request(m, &uri, l, c);
+        }
+    }
+    s.shutdown();
+    s.exit();
+    Some(Scenario {
+        property: ID.into(),
+        label: format!("position sweep: program cut at byte {} of {}", text.len(), SWEEP_PROGRAM.len()),
+        seed,
+        knobs: Knobs::shipped(),
+        schedule: Schedule {
+            policy: Policy::Fifo,
+            seed: idx,
+        },
+        script: s.steps,
+        segmentation: Segmentation::Coalesced,
+        faults: vec![],
+        close_at_end: true,
+    })
+}
+
 /// Runs the judgement in a child process whose judging thread has the scenario's stack size; a
 /// child that dies (stack overflow aborts the process, exactly as it would the server) is the
 /// violation.
